@@ -29,7 +29,7 @@ Definition show_route (r : resolved) : bytes :=
   match r with
   | BadRequest => s2b "bad-request" | OutOfDomain => s2b "out-of-domain"
   | NotFound _ => s2b "not-found"
-  | Redirect code loc _ _ => s2b "redirect:" ++ dec code ++ x3a :: hx loc
+  | Redirect found loc _ _ => s2b "redirect:" ++ dec (if found then 302 else 301) ++ x3a :: hx loc
   | Special _ => s2b "special"
   | File root rel _ _ _ => s2b "file:" ++ dec root ++ x3a :: hx rel
   end.
